@@ -61,6 +61,97 @@ def evaluate(e):
     return None
 
 
+# ---------------------------------------------------------------- repository programs rewritten
+
+REWRITES = ['strip-comments', 'tabs', 'wide-blanks', 'trailing-blanks', 'blank-and-comment-lines', 'upper-mnemonics', 'all']
+
+
+def _mnemonics(cfg_path):
+    import yaml
+    with open(cfg_path) as f:
+        d = yaml.safe_load(f)
+    names = set((d.get('instructions') or {}).keys()) | set((d.get('macros') or {}).keys())
+    return {n.lower() for n in names}
+
+
+def rewrite_text(text, how, mnems):
+    """A meaning-preserving rewrite of one source file; lines containing a quote character are left as they are."""
+    import re
+    out = []
+    for n, line in enumerate(text.split('\n')):
+        if '"' in line or "'" in line:
+            out.append(line)
+            continue
+        code, sep, com = line.partition(';')
+        if how in ('strip-comments', 'all'):
+            sep, com = '', ''
+        if how in ('tabs', 'all'):
+            code = re.sub(r'[ \t]+', '\t', code)
+        if how == 'wide-blanks':
+            code = re.sub(r'[ \t]+', '   ', code)
+        if how in ('trailing-blanks', 'all'):
+            code = code + ' \t ' if not sep else code
+        if how in ('upper-mnemonics', 'all'):
+            m = re.match(r'^(\s*(?:[.\w]+:\s*)?)([A-Za-z_][\w.]*)(.*)$', code, flags=re.S)
+            if m and m.group(2).lower() in mnems and not m.group(2).startswith('.'):
+                code = m.group(1) + m.group(2).upper() + m.group(3)
+        out.append(code + sep + com)
+        if how in ('blank-and-comment-lines', 'all') and n % 3 == 0:
+            out.append('')
+            out.append('\t; an added comment; with "quotes" and \'more\'')
+    return '\n'.join(out)
+
+
+def eval_corpus_rewrite(args):
+    import os
+    import shutil
+    import tempfile
+    from harness import corpus
+    cfg, src, inc, how = args
+    base = corpus.assemble_corpus_one((cfg, src, inc, None))
+    if base['status'] != 'ok':
+        return f'repository program no longer assembles: {(base["msg"] or "")[:120]}'
+    mn = _mnemonics(cfg)
+    d = tempfile.mkdtemp(prefix='vc18_', dir=runner.SCRATCH_ROOT)
+    try:
+        exdir = os.path.dirname(cfg)
+        dst = os.path.join(d, 'ex')
+        shutil.copytree(exdir, dst)
+        for root, _dirs, files in os.walk(dst):
+            for f in files:
+                if os.path.splitext(f)[1] in corpus.EXT:
+                    pth = os.path.join(root, f)
+                    with open(pth) as fh:
+                        t = fh.read()
+                    with open(pth, 'w') as fh:
+                        fh.write(rewrite_text(t, how, mn))
+        rel = os.path.relpath(src, exdir)
+        r = corpus.assemble_corpus_one((os.path.join(dst, os.path.basename(cfg)), os.path.join(dst, rel),
+                                        os.path.join(dst, os.path.relpath(inc, exdir)), None))
+        if r['status'] != 'ok':
+            return f'rewritten ({how}) program rejected: {(r["msg"] or "")[:160]}'
+        if r['image'] != base['image']:
+            k = next((i for i in range(min(len(r['image']), len(base['image']))) if r['image'][i] != base['image'][i]), None)
+            return f'rewritten ({how}) program assembles to a different image (lengths {len(base["image"])} / {len(r["image"])}, first difference at {k})'
+        return None
+    finally:
+        shutil.rmtree(d, ignore_errors=True)
+
+
+def run_corpus(chk):
+    import os
+    from harness import corpus
+    progs = [p for p in corpus.corpus_programs() if chk.tier != 'quick' or os.path.getsize(p[1]) < 12000]
+    jobs = [(c, s_, i, h) for (c, s_, i) in progs for h in (REWRITES if chk.tier != 'quick' else ['all', 'upper-mnemonics', 'wide-blanks'])]
+    outs = runner.pmap(eval_corpus_rewrite, jobs)
+    for (c, s_, i, h), r in zip(jobs, outs):
+        chk.traces += 1
+        chk.nontriv(('corpus', s_, h))
+        if r is not None:
+            chk.violation(f'{os.path.relpath(s_, corpus.REPO)}: {r}', {'path': s_, 'rewrite': h}, None, r, {'kind': 'corpus-rewrite'})
+    chk.notes['corpus_rewrites'] = len(jobs)
+
+
 def run(chk):
     quick = chk.tier == 'quick'
     rng = random.Random(chk.seed + 18)
@@ -71,7 +162,7 @@ def run(chk):
                 'blank line before) and checks RoundTrip: Tokenize(Render(P, c)) = P. The harness spells each rendering and the real '
                 'assembler must produce Bytes(P), the same for every rendering of P. Instances: all 108 styles for single '
                 'statements and pairs (sampled in the quick tier), a 10-style covering subset for three statements. '
-                'Non-trivial = distinct rendered text.')
+                'Non-trivial = distinct rendered text. The repository programs are also rewritten (comments stripped, blanks changed to tabs / widened / appended, blank and comment lines added, mnemonics upper-cased; lines with quote characters untouched) and must assemble to the same image under their own ISAs.')
     chk.assumptions = ['only the rewrites the statement lists are applied: case of mnemonics and registers (not labels, not directives), blanks between tokens, blank lines, comments, label placement, joining of instructions (not directives)']
     plan = ([('all-styles-1', 'StmtsA', 'StylesAll', 1), ('half-styles-2', 'StmtsA', 'StylesHalf', 2), ('core-styles-3', 'StmtsB', 'StylesCore', 3)] if quick
             else [('all-styles-2', 'StmtsA', 'StylesAll', 2), ('core-styles-3', 'StmtsA', 'StylesCore', 3), ('core-styles-4', 'StmtsB', 'StylesCore', 4)])
@@ -92,4 +183,5 @@ def run(chk):
                 chk.violation(f'{r["m"]} | text: {r["text"]!r}', r['case'], e['bytes'], r['m'], {'kind': 'render'})
         e = emits[len(emits) // 2]
         chk.sample({'instance': tag, 'text': spell(e['items']), 'bytes': e['bytes']})
+    run_corpus(chk)
     chk.exhaustive = not quick
